@@ -18,6 +18,8 @@ import itertools, os, struct, time
 import vlib
 import histlib
 
+LAST_INDEX_COVERAGE = {}
+
 EXT = [1, 2, 3, 5, 7, 8, 13, 16, 17, 31]
 ESZ = [1, 2, 4, 8, 3]
 DT = {  # name -> (class, size, class bit field as the writer's registry records it)
@@ -169,6 +171,165 @@ def gen_enc_cases(rng, nper):
     return cases
 
 
+# ----------------------------------------------------------------------------- chunk index (version 1 B-tree, node type 1)
+
+U64 = 2 ** 64 - 1
+BIG = [2 ** 32 - 1, 2 ** 32, 2 ** 32 + 1, 2 ** 53, 2 ** 63 - 1, 2 ** 63, 2 ** 63 + 1, U64 - 1, U64]
+
+
+def _rand_addr(rng):
+    r = rng.random()
+    if r < 0.5:
+        return rng.randrange(0, 1 << 20)
+    if r < 0.75:
+        return rng.choice(BIG)
+    return rng.getrandbits(64)
+
+
+def _rand_nbytes(rng):
+    r = rng.random()
+    if r < 0.6:
+        return rng.randrange(1, 1 << 16)
+    if r < 0.8:
+        return rng.choice([0, 1, 2 ** 30, 2 ** 30 + 1, 2 ** 31, 2 ** 32 - 1])
+    return rng.getrandbits(32)
+
+
+def _grid_coords(rng, rank, n, cdims):
+    """n different chunk offsets of a grid (multiples of the chunk extents); the grid is wide along a random,
+    possibly non-leading, dimension so that coordinates like [0,31] and [1,0] both occur"""
+    wide = rng.randrange(rank)
+    per = [1] * rank
+    rest = max(1, rng.choice([1, 2, 3]) if rank > 1 else 1)
+    for k in range(rank):
+        per[k] = rest if k != wide else 0
+    others = prod(p for k, p in enumerate(per) if k != wide)
+    per[wide] = (n + others - 1) // others
+    allc = list(itertools.product(*[range(p) for p in per]))
+    rng.shuffle(allc)
+    return [[x * c for x, c in zip(co, cdims)] for co in allc[:n]]
+
+
+def _wild_coords(rng, rank, n):
+    seen, out = set(), []
+    pool = [0, 1, 2, 30, 31, 32, 33, 255, 256, 65535, 65536] + BIG
+    while len(out) < n:
+        co = tuple(rng.choice(pool) if rng.random() < 0.7 else rng.getrandbits(rng.choice([8, 16, 40, 64])) for _ in range(rank))
+        if co not in seen:
+            seen.add(co)
+            out.append(list(co))
+    return out
+
+
+def gen_index_cases(rng, thorough):
+    cases = []
+    counts = [1, 2, 3, 31, 32, 33, 63, 64, 65, 100, 300]
+    plan = [(n, rank) for n in counts for rank in ((1, 2, 3, 4) if (thorough or n <= 3) else ())]
+    if not thorough:
+        for n in counts[3:]:
+            ranks = [1, 2, 3, 4]
+            rng.shuffle(ranks)
+            plan += [(n, r) for r in ranks[:(2 if n <= 100 else 1)]]
+        plan.append((300, 4))
+    plan += [(rng.randrange(1, 9), rng.choice([1, 2, 2, 3, 4])) for _ in range(400 if thorough else 70)]
+    if thorough:
+        plan += [(rng.choice([31, 32, 33, 63, 64, 65, 100, 200, 300]), rng.choice([1, 2, 3, 4])) for _ in range(150)]
+        plan += [(1000, 2), (3000, 1)]
+    for n, rank in plan:
+        cdims = [rng.choice([1, 1, 2, 3, 7, 16, 100, 2 ** 16, 2 ** 32 - 1]) for _ in range(rank)]
+        if rng.random() < 0.6:
+            coords = _grid_coords(rng, rank, n, cdims)
+        else:
+            coords = _wild_coords(rng, rank, n)
+        n = len(coords)
+        entries = [dict(coord=co, addr=_rand_addr(rng), nbytes=_rand_nbytes(rng)) for co in coords]
+        cases.append(dict(mode="index", dim=rank, cdims=cdims, eof=rng.choice([0, 1, 8, 100, 2048]), entries=entries))
+    # the writer's own refusals: no entry; an entry of another rank
+    cases.append(dict(mode="index", dim=2, cdims=[2, 3], eof=8, entries=[]))
+    cases.append(dict(mode="index", dim=2, cdims=[2, 3], eof=8, entries=[dict(coord=[0, 0], addr=1, nbytes=1), dict(coord=[4], addr=2, nbytes=1)]))
+    cases.append(dict(mode="index", dim=1, cdims=[4], eof=0, entries=[dict(coord=[0, 0], addr=1, nbytes=1)]))
+    # chunk extents the reader refuses (zero) and a rank the reader indexes out of range
+    cases.append(dict(mode="index", dim=2, cdims=[2, 0], eof=8, entries=[dict(coord=[0, 0], addr=1, nbytes=1)]))
+    cases.append(dict(mode="index", dim=2, cdims=[0, 2], eof=8, entries=[dict(coord=[0, 0], addr=1, nbytes=1), dict(coord=[0, 2], addr=9, nbytes=1)]))
+    return cases
+
+
+def py_node(level, entries, lastkey, osz=8, used=None, sig=b"TREE", ntype=1, sib=(U64, U64)):
+    """bytes of one B-tree node; entries = [(nbytes, mask, [offsets], child)]"""
+    mask = (1 << (8 * osz)) - 1 if osz else 0
+    b = bytearray(sig + bytes([ntype, level]) + struct.pack("<H", len(entries) if used is None else used))
+    for x in sib:
+        b += (x & mask).to_bytes(osz, "little")
+    for nb, fm, offs, child in entries:
+        b += struct.pack("<II", nb, fm) + b"".join(struct.pack("<Q", o) for o in offs) + (child & mask).to_bytes(osz, "little")
+    nb, fm, offs = lastkey
+    b += struct.pack("<II", nb, fm) + b"".join(struct.pack("<Q", o) for o in offs)
+    return bytes(b)
+
+
+def py_tree(rng, rank, cdims, shape, osz=8):
+    """a multi-level tree (the writer never builds one, the reader accepts it): shape = list of fan-outs from the
+    root down, leaves hold 1-3 entries.  Returns (file bytes, root, expected entries in leaf order)."""
+    file = bytearray(rng.randrange(0, 40))
+    expect = []
+    counter = [0]
+
+    def put(b):
+        a = len(file)
+        file.extend(b)
+        file.extend(bytes(rng.randrange(0, 5)))
+        return a
+
+    def build(level, fans):
+        if level == 0:
+            ents = []
+            for _ in range(rng.randrange(1, 4)):
+                counter[0] += 1
+                offs = [counter[0] * c for c in cdims]
+                e = (rng.randrange(1, 1 << 20), rng.choice([0, 0, 1, 3]), offs, rng.randrange(0, 1 << (8 * min(osz, 6))))
+                ents.append(e)
+                expect.append(dict(scaled=[o // c for o, c in zip(offs, cdims)], nbytes=e[0], mask=e[1], addr=e[3]))
+            return put(py_node(0, ents, (0, 0, [U64] * rank), osz))
+        kids = [build(level - 1, fans[1:]) for _ in range(fans[0])]
+        ents = [(0, 0, [0] * rank, k) for k in kids]
+        return put(py_node(level, ents, (0, 0, [U64] * rank), osz))
+
+    root = build(len(shape), shape)
+    return bytes(file), root, expect
+
+
+def gen_raw_cases(rng, bases, thorough):
+    """malformed streams: truncations and byte flips of valid nodes, wrong offset size / rank / chunk extents / root"""
+    cases = []
+    per = 40 if thorough else 11
+    for file, root, osz, cdims in bases:
+        rank = len(cdims)
+        ksz = 8 + 8 * rank
+        end = len(file)
+        cuts = {root, root + 1, root + 4, root + 7, root + 8, root + 8 + osz, root + 8 + 2 * osz - 1, root + 8 + 2 * osz,
+                root + 8 + 2 * osz + ksz - 1, root + 8 + 2 * osz + ksz, root + 8 + 2 * osz + ksz + osz, end - 1, end - ksz, end - ksz - 1}
+        cuts = sorted(c for c in cuts if 0 <= c < end)
+        muts = []
+        for c in rng.sample(cuts, min(len(cuts), per // 2)):
+            muts.append((file[:c], root, osz, rank, cdims))
+        hdr = [root + k for k in range(0, 8 + 2 * osz)]
+        for _ in range(per - len(muts)):
+            b = bytearray(file)
+            pos = rng.choice(hdr) if rng.random() < 0.6 else rng.randrange(root, end)
+            if pos < end:
+                b[pos] = rng.choice([0, 1, 2, 255, b[pos] ^ (1 << rng.randrange(8)), rng.randrange(256)])
+            muts.append((bytes(b), root, osz, rank, cdims))
+        muts.append((file, root, osz, rank + 1, cdims))                       # ndims > len(chunkDims) ...
+        muts.append((file + bytes(400), root, osz, rank + 1, cdims))          # ... with enough bytes: index out of range
+        muts.append((file, root, osz, max(0, rank - 1), cdims))
+        muts.append((file, root, rng.choice([0, 1, 2, 3, 4, 9, 16, 255]), rank, cdims))
+        muts.append((file, root, osz, rank, [0 if k == rng.randrange(rank) else c for k, c in enumerate(cdims)]))
+        muts.append((file, rng.choice([end, end - 1, end + 5, 2 ** 63 - 1, 2 ** 63, U64, U64 - 23, root + 1]), osz, rank, cdims))
+        for f, r, o, nd, cd in muts:
+            cases.append(dict(mode="indexraw", file=f.hex(), root=r, osz=o, ndims=nd, cdims=cd))
+    return cases
+
+
 # ----------------------------------------------------------------------------- Python oracle (independent of model and code)
 
 def py_chunks(dims, cdims, esz, data):
@@ -223,7 +384,8 @@ def run_unit(ctx):
         resize = gen_resize_cases(rng, n_resize, maxelems=200, maxpadded=600)
     conv = gen_conv_cases(rng, nper)
     enc = gen_enc_cases(rng, nper)
-    cases = tile + resize + conv + enc
+    idxc = gen_index_cases(rng, thorough)
+    cases = tile + resize + conv + enc + idxc
     res = vlib.run_harness_parallel(H, "c01unit", cases) if thorough else vlib.run_harness(H, "c01unit", cases)
     viol, samples, known = [], [], []
     evaluations = 0
@@ -237,8 +399,8 @@ def run_unit(ctx):
         viol.append(dict(what=what, failing_input=c, case=c, impl={k: v for k, v in r.items() if k != "stack"}, **kw))
 
     # ---- specification on the Go outputs (Python oracle)
-    header = ("From HV Require Import Base.Prelude Model.Chunk Model.Elem Model.ChunkTie.\nFrom Coq Require Import Uint63.\n"
-              "Open Scope N_scope.\nOpen Scope string_scope.\n")
+    header = ("From HV Require Import Base.Prelude Model.Chunk Model.Elem Model.ChunkTie Model.ChunkIndex Model.ChunkIndexTie.\n"
+              "From Coq Require Import Uint63.\nOpen Scope N_scope.\nOpen Scope string_scope.\n")
     groups = []        # (Coq text, [(label, kind, list of case indices)]): independent pieces, evaluated by parallel coqc runs
     tile_terms, tile_idx = [], []
     for i, (c, r) in enumerate(zip(cases, res)):
@@ -383,6 +545,154 @@ def run_unit(ctx):
                    [("bad_encint", "model", encint_idx), ("bad_encstr", "model", encstr_idx),
                     ("bad_decstr", "model", [i for i, _ in dec_src])]))
 
+    # ---- chunk index: writer bytes, reader entries (value-exact, Go order), malformed streams
+    def gents(rd):
+        return "[" + ";".join("(%s,%d,%d,%d)" % (cl(e["scaled"]), e["nbytes"], e["mask"], e["addr"]) for e in (rd.get("entries") or [])) + "]"
+
+    def rclass(r):
+        return 2 if "panic" in r else r["read"]["class"]
+
+    iw_terms, iw_idx, iw_weight = [], [], []
+    raw_bases = []
+    max_entries = 0
+    for i, (c, r) in enumerate(zip(cases, res)):
+        if c["mode"] != "index":
+            continue
+        evaluations += 1
+        ents, cdims, dim = c["entries"], c["cdims"], c["dim"]
+        distinct.add(("index", dim, len(ents), tuple(cdims)))
+        if "harness_error" in r:
+            bad("index harness error: %s" % r["harness_error"][:200], c, r)
+            continue
+        wvalid = len(ents) > 0 and all(len(e["coord"]) == dim for e in ents)
+        rvalid = wvalid and all(x > 0 for x in cdims) and len(cdims) == dim
+        if "panic" in r:
+            if rvalid:
+                bad("chunk index of %d entries (rank %d): the library panics: %s" % (len(ents), dim, r["panic"][:160]), c, r)
+                continue
+            # not a valid input of the property: compared with the model only (class 2)
+        if wvalid != bool(r.get("wok")) and "panic" not in r:
+            bad("ChunkBTreeWriter %s an entry list that is %s (%d entries, rank %d): %s"
+                % ("refuses" if wvalid else "accepts", "valid" if wvalid else "invalid", len(ents), dim, r.get("werr", "")), c, r)
+            continue
+        if r.get("wok") and rvalid:
+            # specification on the Go output: every written entry exactly once, in offset order, offsets divided by the
+            # chunk extents, size and address as written, mask 0; root at the allocator's end of file
+            exp = [dict(scaled=[o // k for o, k in zip(e["coord"], cdims)], nbytes=e["nbytes"], mask=0, addr=e["addr"])
+                   for e in sorted(ents, key=lambda e: e["coord"])]
+            rd = r["read"]
+            if r["root"] != c["eof"]:
+                bad("index root %d, allocator end of file %d" % (r["root"], c["eof"]), c, r)
+                continue
+            if rd["class"] != 0 or rd["entries"] != exp:
+                got = rd.get("entries") or []
+                j = next((j for j in range(max(len(got), len(exp))) if j >= len(got) or j >= len(exp) or got[j] != exp[j]), 0)
+                bad("chunk index with %d entries (rank %d, chunk extents %s) reads back %s; first difference at position %d: "
+                    "read %s, written %s" % (len(ents), dim, cdims, ("error " + rd.get("err", "")) if rd["class"] else "%d entries" % len(got), j,
+                                             got[j] if j < len(got) else None, exp[j] if j < len(exp) else None), c, r,
+                    expected=exp[:50])
+                continue
+            max_entries = max(max_entries, len(ents))
+            if len(ents) <= 5 and len(raw_bases) < (60 if thorough else 14):
+                raw_bases.append((bytes.fromhex(r["file"]), r["root"], 8, cdims))
+            if len(samples) < 7 and len(ents) in (3, 33) and dim >= 2:
+                samples.append(dict(mode="index", dim=dim, cdims=cdims, entries=ents[:3], n=len(ents), root=r["root"], read=rd["entries"][:3]))
+        es = "[" + ";".join("(%s,%d,%d)" % (cl(e["coord"]), e["addr"], e["nbytes"]) for e in ents) + "]"
+        if r.get("wok"):
+            t = "(%d%%nat,%s,%s,%d,true,%d,%s,%d,%s)" % (dim, cl(cdims), es, c["eof"], r["root"], pk(r["file"]), rclass(r), gents(r.get("read", {})))
+        elif "panic" in r:
+            continue
+        else:
+            t = "(%d%%nat,%s,%s,%d,false,0,%s,1,[])" % (dim, cl(cdims), es, c["eof"], pk(b""))
+        iw_terms.append(t)
+        iw_idx.append(i)
+        iw_weight.append(20 + len(ents) * (2 * dim + 8) + len(r.get("file", "")) // 14)
+
+    def weighted_groups(prefix, ty, okf, terms, idxs, weights, limit):
+        k, cur, curw = 0, [], 0
+        for j in range(len(terms) + 1):
+            if j == len(terms) or (cur and curw + weights[j] > limit):
+                name = "%s_%d" % (prefix, k)
+                groups.append(("Definition %s : list %s := [%s].\n" % (name, ty, ";".join(terms[x] for x in cur))
+                               + "Definition bad_%s := Eval vm_compute in mismatches %s %s.\n" % (name, okf, name),
+                               [("bad_" + name, "model", [idxs[x] for x in cur])]))
+                k, cur, curw = k + 1, [], 0
+            if j < len(terms):
+                cur.append(j)
+                curw += weights[j]
+
+    weighted_groups("iw", "iwcase", "iw_ok", iw_terms, iw_idx, iw_weight, 6000)
+
+    # multi-level trees built here (the writer never emits them; the reader's recursion, level guard and visited set)
+    tree_cases, tree_expect = [], []
+    for _ in range(60 if thorough else 12):
+        rank = rng.choice([1, 2, 3])
+        cdims = [rng.choice([1, 2, 5, 1000]) for _ in range(rank)]
+        osz = rng.choice([8, 8, 8, 4])
+        shape = rng.choice([[1], [2], [3], [2, 2], [1, 1, 1], [3, 2], [1, 4]])
+        file, root, expect = py_tree(rng, rank, cdims, shape, osz)
+        tree_cases.append(dict(mode="indexraw", file=file.hex(), root=root, osz=osz, ndims=rank, cdims=cdims))
+        tree_expect.append(expect)
+        if len(raw_bases) < (90 if thorough else 20):
+            raw_bases.append((file, root, osz, cdims))
+    # guards: a node that is its own child, one child referenced twice, a child at the parent's level
+    leaf = py_node(0, [(8, 0, [0], 500)], (0, 0, [U64]))
+    for f, root in [(py_node(1, [(0, 0, [0], 0)], (0, 0, [U64])), 0),
+                    (leaf + py_node(1, [(0, 0, [0], 0), (0, 0, [4], 0)], (0, 0, [U64])), len(leaf)),
+                    (py_node(1, [(0, 0, [0], 100)], (0, 0, [U64])).ljust(100, b"\0") + py_node(1, [(0, 0, [0], 0)], (0, 0, [U64])), 0),
+                    (py_node(2, [(0, 0, [0], 100)], (0, 0, [U64])).ljust(100, b"\0") + py_node(1, [(0, 0, [0], 0)], (0, 0, [U64])), 0),
+                    # root (level 1) -> node of the SAME level 1 -> leaf: refused by the level guard although acyclic
+                    (leaf.ljust(100, b"\0") + py_node(1, [(0, 0, [0], 0)], (0, 0, [U64])).ljust(100, b"\0")
+                     + py_node(1, [(0, 0, [0], 100)], (0, 0, [U64])), 200),
+                    # ... and a child one level ABOVE its parent
+                    (leaf.ljust(100, b"\0") + py_node(2, [(0, 0, [0], 0)], (0, 0, [U64])).ljust(100, b"\0")
+                     + py_node(1, [(0, 0, [0], 100)], (0, 0, [U64])), 200),
+                    (py_node(0, [], (0, 0, [U64]), used=0), 0), (py_node(3, [], (0, 0, [U64]), used=0), 0),
+                    (py_node(0, [(8, 0, [0], 500)], (0, 0, [U64]), ntype=0), 0)]:
+        tree_cases.append(dict(mode="indexraw", file=f.hex(), root=root, osz=8, ndims=1, cdims=[4]))
+        tree_expect.append(None)
+    # entries used = 65535: len(Keys) = uint16(65535 + 1) = 0, so storing key 0 is an index panic (when the file is long
+    # enough for 65535 entries); 65534 with the same bytes is an ordinary (all-zero) node of 65534 entries - not evaluated
+    # by the model here (too long for the list-based evaluation), only its short-file error twin
+    hdr65535 = py_node(0, [], (0, 0, [0]), used=65535)[:24]
+    for f in (hdr65535 + bytes(65535 * 24 + 16), hdr65535 + bytes(4096)):
+        tree_cases.append(dict(mode="indexraw", file=f.hex(), root=0, osz=8, ndims=1, cdims=[4]))
+        tree_expect.append(None)
+    raw_cases = tree_cases + gen_raw_cases(rng, raw_bases, thorough)
+    raw_res = vlib.run_harness(H, "c01unit", raw_cases)
+    base_i = len(cases)
+    cases += raw_cases
+    res += raw_res
+    ir_terms, ir_idx, ir_weight = [], [], []
+    used65535 = [rclass(r) for c, r in zip(raw_cases, raw_res) if c["file"].startswith(hdr65535.hex())]
+    malformed = {0: 0, 1: 0, 2: 0}
+    for j, (c, r) in enumerate(zip(raw_cases, raw_res)):
+        evaluations += 1
+        if "harness_error" in r:
+            bad("indexraw harness error: %s" % r["harness_error"][:200], c, r)
+            continue
+        k = rclass(r)
+        if j < len(tree_expect):
+            if tree_expect[j] is not None and (k != 0 or r["read"]["entries"] != tree_expect[j]):
+                bad("a well-formed %d-level chunk B-tree (rank %d, offset size %d) with %d leaf entries is read as %s"
+                    % (r.get("read", {}).get("level", -1) + 1, c["ndims"], c["osz"], len(tree_expect[j]),
+                       "class %d %s" % (k, r.get("panic", r.get("read", {}).get("err", ""))[:120]) if k else "%d entries" % len(r["read"]["entries"])), c, r,
+                    expected=tree_expect[j][:50])
+                continue
+            max_entries = max(max_entries, len(tree_expect[j] or []))
+        else:
+            malformed[k] += 1
+        rd = r.get("read", {})
+        fb = bytes.fromhex(c["file"])
+        body = fb.rstrip(b"\0") if len(fb) > 8000 else fb     # long zero tails are not spelled out as literals
+        ir_terms.append("(%s,%d,%d,%d,%d%%nat,%s,%d,%s)" % (pk(body), len(fb) - len(body), c["root"], c["osz"], c["ndims"], cl(c["cdims"]), k, gents(rd)))
+        ir_idx.append(base_i + j)
+        ir_weight.append(20 + len(body) // 7 + 6 * len(rd.get("entries") or []))
+    weighted_groups("ir", "ircase", "ir_ok", ir_terms, ir_idx, ir_weight, 3000)
+    if raw_res:
+        samples.append(dict(mode="indexraw", root=raw_cases[-1]["root"], osz=raw_cases[-1]["osz"], ndims=raw_cases[-1]["ndims"],
+                            file=raw_cases[-1]["file"][:64], go=rclass(raw_res[-1])))
+
     # ---- Coq model on the same cases
     import concurrent.futures as cf
     nfiles = max(1, min(12, len(groups)))
@@ -428,7 +738,9 @@ def run_unit(ctx):
             # Go != model but the Python oracle accepted the Go output: fidelity divergence
             viol.append(dict(what="implementation and Coq model disagree (%s) while the specification holds on this input" % c["mode"],
                              case=c, impl={k: v for k, v in r.items() if k != "stack"}, nofail=True,
-                             correspondence="Model/Chunk.v + Model/Elem.v (Model/ChunkTie.v %s) vs Go; theorems C01_chunk_tiling / C13_read_after_resize / C01_int_roundtrip" % lab))
+                             correspondence=("Model/ChunkIndex.v (Model/ChunkIndexTie.v %s) vs Go; theorems C01_index_roundtrip / C01_index_lookup / C01_chunked_end_to_end" % lab)
+                             if c["mode"] in ("index", "indexraw") else
+                             "Model/Chunk.v + Model/Elem.v (Model/ChunkTie.v %s) vs Go; theorems C01_chunk_tiling / C13_read_after_resize / C01_int_roundtrip" % lab))
 
     # ---- C13 stale data after shrink-then-grow, confirmed at unit level (finding, not a violation here)
     w = dict(mode="resize", dims=[8], newdims=[7], cdims=[4], esz=1, data=bytes(range(1, 9)).hex())
@@ -442,8 +754,17 @@ def run_unit(ctx):
     nviol = len(viol)
     viol.sort(key=lambda v: bool(v.get("nofail")))
     viol = viol[:25]
+    global LAST_INDEX_COVERAGE
+    LAST_INDEX_COVERAGE = dict(index_cases=len(iw_terms), max_entries=max_entries, malformed_cases=sum(malformed.values()),
+                               malformed_classes=dict(ok=malformed[0], err=malformed[1], panic=malformed[2]), tree_cases=len(tree_cases),
+                               entries_used_65535_classes=used65535,
+                               entry_counts=sorted({len(c["entries"]) for c in idxc}),
+                               ranks=sorted({c["dim"] for c in idxc}), unit_wall_s=round(time.time() - t0, 1))
     return dict(violations=viol, violations_total=nviol, evaluations=evaluations, distinct=len(distinct), samples=samples[:8], known=known,
-                coq_cases=len(tile_terms) + len(conv_terms) + len(encint_terms) + len(encstr_terms) + len(decstr_terms),
+                coq_cases=len(tile_terms) + len(conv_terms) + len(encint_terms) + len(encstr_terms) + len(decstr_terms) + len(iw_terms) + len(ir_terms),
+                index_cases=len(iw_terms), max_entries=max_entries, malformed_cases=sum(malformed.values()),
+                malformed_classes=dict(ok=malformed[0], err=malformed[1], panic=malformed[2]), tree_cases=len(tree_cases),
+                entries_used_65535_classes=used65535,
                 coq_seconds=round(coq_s, 1), wall_s=round(time.time() - t0, 1),
                 distribution=dict(tile=len(tile), resize=len(resize), conv_buffers=len(conv), enc_buffers=len(enc),
                                   ranks={k: sum(1 for c in tile + resize if len(c["dims"]) == k) for k in (1, 2, 3, 4)},
@@ -451,4 +772,4 @@ def run_unit(ctx):
                                   chunk_gt_dim=sum(1 for c in tile + resize if any(k > d for k, d in zip(c["cdims"], c["dims"]))),
                                   nondividing=sum(1 for c in tile + resize if any(d % k for k, d in zip(c["cdims"], c["dims"])))),
                 rule="distinct = number of different (dims, chunk dims, read dims, esz) shapes plus element-type buffers; "
-                     "evaluations = shapes placed + elements converted/encoded")
+                     "evaluations = shapes placed + elements converted/encoded + chunk index files written/read")
